@@ -229,6 +229,11 @@ pub fn run(out: &mut Out, tier: &str, rng: &mut Rng) {
     let firsts = gen::first_tokens();
     out.comment("schedules: the corpus parsed from several threads at once");
     par_stage(out, "par_langid", par_inputs(), langid, if thorough { 400 } else { 40 });
+    out.comment("state carried from one call to the next: ordered pairs of the corpus (one case = two calls)");
+    {
+        let c: Vec<Vec<u8>> = par_inputs().into_iter().step_by(if thorough { 1 } else { 3 }).collect();
+        for x in c.iter() { for y in c.iter() { if x != y { out.case("seq_langid", &[x, y], || { let _ = langid(x); langid(y) }); } } }
+    }
     out.comment("non-ASCII look-alikes: one character replaced by one that a Unicode-aware mapping would fold to ASCII");
     for b in gen::LOOKALIKE_BASES.iter() { for s in gen::lookalikes(b) { parse_ops(out, s.as_bytes()); } }
     out.comment("G2: token sequences");
